@@ -58,6 +58,18 @@ theorem eval_ctx_irrel (defs : Name → Q) : ∀ (n : Nat) (q : Q) (g g' : Ctx) 
       have : (fun w => eval defs n g ⟨ρ.clo, (x, w) :: ρ.vars⟩ b v) = (fun w => eval defs n g' ⟨ρ.clo, (x, w) :: ρ.vars⟩ b v) :=
         funext fun w => ih b g g' _ v hg
       rw [this]
+    | reduce x src init upd =>
+      simp only [eval, ih init g g' ρ v hg, ih src g g' ρ v hg]
+      have : (fun w s => eval defs n g ⟨ρ.clo, (x, w) :: ρ.vars⟩ upd s) = (fun w s => eval defs n g' ⟨ρ.clo, (x, w) :: ρ.vars⟩ upd s) :=
+        funext fun w => funext fun s => ih upd g g' _ s hg
+      rw [this]
+    | foreach x src init upd ext =>
+      simp only [eval, ih init g g' ρ v hg, ih src g g' ρ v hg]
+      have h1 : (fun w s => eval defs n g ⟨ρ.clo, (x, w) :: ρ.vars⟩ upd s) = (fun w s => eval defs n g' ⟨ρ.clo, (x, w) :: ρ.vars⟩ upd s) :=
+        funext fun w => funext fun s => ih upd g g' _ s hg
+      have h2 : (fun w u => eval defs n g ⟨ρ.clo, (x, w) :: ρ.vars⟩ ext u) = (fun w u => eval defs n g' ⟨ρ.clo, (x, w) :: ρ.vars⟩ ext u) :=
+        funext fun w => funext fun u => ih ext g g' _ u hg
+      rw [h1, h2]
 
 theorem cy_var {code defs entry nf n} (hfun : FuncsOK code defs entry nf) (ihn : CY code defs entry nf n) (x : Nat) :
     CYq code defs entry nf (n+1) (.var x) := by
